@@ -115,7 +115,7 @@ func checkF1(c *fw.Ctx) {
 		}
 	}
 	c.Count("explicit_panics", n)
-	c.Min(rule+" panics", n, 30)
+	c.Min(rule+" panics", n, 10)
 	// call sites of the Must helpers
 	for _, fn := range c.P.SrcFuncs() {
 		for _, call := range fw.Calls(fn) {
@@ -366,7 +366,7 @@ func checkF4(c *fw.Ctx) {
 			c.Check(ok, rule, fmt.Sprintf("%s is applied to established-valid JSON in %s", strings.TrimPrefix(cn, "gmsl."), name), c.P.Pos(call.Pos()), why, fmt.Sprintf("%s assumes valid JSON (it indexes past tokens without bounds checks) but %s", cn, why))
 		}
 	}
-	c.Min(rule+" call sites", n, 8)
+	c.Min(rule+" call sites", n, 3)
 }
 
 func checkF5(c *fw.Ctx) {
